@@ -474,7 +474,7 @@ func (x *Exec) callValue(caller *frame, pos token.Pos, fn Value, args []Value) V
 	switch fn := fn.(type) {
 	case *ssa.Function:
 		if fn == nil {
-			x.tpanic("call of nil function")
+			x.tpanic("call of nil function at " + x.stackString())
 		}
 		return x.callSSA(caller, fn, args, nil)
 	case *Closure:
